@@ -44,7 +44,9 @@ DAMAGE = ['dup-line', 'drop-line', 'dup-ignore', 'unknown-tag', 'unknown-hash', 
           'huge-size', 'esc-overflow', 'esc-above-unicode', 'esc-surrogate', 'esc-nul', 'esc-bad', 'empty-path',
           'abs-path', 'dotdot-path', 'names-dir', 'beneath-file', 'crlf', 'tabs', 'trailing-space', 'bad-timestamp',
           'short-line', 'odd-checksum-count', 'ignore-top', 'ignore-dot', 'aux-no-files', 'dist-slash',
-          'manifest-self', 'manifest-missing', 'dup-manifest-entry', 'blank-lines', 'long-line', 'unicode-space']
+          'manifest-self', 'manifest-missing', 'dup-manifest-entry', 'blank-lines', 'long-line', 'unicode-space',
+          'size-superscript', 'size-circled', 'size-arabic-indic', 'size-fullwidth', 'size-plus', 'size-underscore',
+          'size-float', 'size-hex', 'hash-value-odd', 'tag-lowercase', 'tag-unicode', 'path-only-escape']
 
 
 def generate(rng, tier, idx):
@@ -187,6 +189,22 @@ def apply_damage(w, sc, d):
         s2 = list(sl)
         s2[2] = '9' * 40
         lines[idx] = ' '.join(s2)
+    elif k.startswith('size-') and len(sl) >= 3:
+        s2 = list(sl)
+        s2[2] = {'size-superscript': '\u00b2', 'size-circled': '\u2460', 'size-arabic-indic': '\u0663',
+                 'size-fullwidth': '\uff11\uff12', 'size-plus': '+5', 'size-underscore': '1_0', 'size-float': '1.0',
+                 'size-hex': '0x10'}[k]
+        lines[idx] = ' '.join(s2)
+    elif k == 'hash-value-odd' and len(sl) >= 5:
+        s2 = list(sl)
+        s2[4] = 'zz\u00e9' + s2[4][3:]
+        lines[idx] = ' '.join(s2)
+    elif k == 'tag-lowercase':
+        lines[idx:idx + 1] = [line.replace(sl[0], sl[0].lower(), 1)]
+    elif k == 'tag-unicode':
+        lines.append('D\u0410TA cyrillic-tag 1')
+    elif k == 'path-only-escape':
+        repl_path('\\x2F')
     elif k == 'esc-overflow':
         repl_path('esc\\UFFFFFFFFx')
     elif k == 'esc-above-unicode':
